@@ -702,6 +702,16 @@ Proof.
       destruct l5; discriminate.
 Qed.
 
+(* T1: the error paths of the two server-message handlers return a constructed error, never (nil, nil) *)
+Lemma gen_error_returns_constructed : Gen.scram_error_returns_constructed = true.
+Proof. reflexivity. Qed.
+
+(* a challenge (334) never ends the exchange silently: Next(_, more = true) of scramAuth never returns (nil, nil), which
+   smtp.Client.Auth would take for "finished" and report as success without a 235 *)
+Lemma scram_challenge_never_nil : forall H HMAC hsize precis id s msg s',
+  m_next (scram_mech H HMAC hsize precis gen_scram_cfg id) s msg true <> (s', Some None).
+Proof. intros. rewrite gen_scram_cfg_fixed. apply next_more_never_nil. Qed.
+
 (* T1: literals of the computation the model hard-codes *)
 Lemma gen_scram_literals :
   Gen.scram_lits_client_proof = [bs "Client Key"] /\ Gen.scram_lits_server_sig = [bs "Server Key"] /\
